@@ -108,6 +108,11 @@ def ASR.consume (a : ASR) : ASR × DrainOut :=
   else
     ({ a with usePrimary := true, secondary := a.secondary.reset }, a.secondary.drain)
 
+/-- `AtomicSamplingReservoir::consume` with a closure that leaks the `Drain` (`mem::forget`): the sides are swapped and
+    the retired side is read, but `Drain::drop` never runs, so its count is NOT reset -/
+def ASR.consumeForget (a : ASR) : ASR × DrainOut :=
+  ({ a with usePrimary := !a.usePrimary }, a.active.drain)
+
 /-- operations of a sequential history -/
 inductive Op
   | push (v c : Nat)
